@@ -11,7 +11,14 @@
    - a field omitted from a keyed composite literal is its zero value ([EStr []], [EBool false],
      [ENil]); the six fields of [&Group{..}] and the two of [token{..}] are printed in a fixed order;
    - the receiver is named by [r_self]; unnamed parameters are called "_";
-   - [x...] as the last call argument is [ESpread x]. *)
+   - [x...] as the last call argument is [ESpread x];
+   - a call of an UNEXPORTED function or method of package jen (a helper: the table has no row
+     for it and the IR no call of it) is replaced by the helper's body, with the receiver and
+     the arguments bound in order before it, if that body is itself in the IR; the bindings of
+     variables, literals and constants are then substituted.  The exact rule is in the header of
+     tools/cmd/api2ir/main.go; the calls it was applied to are listed in Gen/Api.v
+     ([inlined_calls]).  A helper outside the IR, or a recursive one, makes the row
+     [Untranslatable]. *)
 From Jen Require Export Base.Bytes.
 
 (* how a parameter is passed; computed by go/types on the UNDERLYING type, so a named
